@@ -94,6 +94,12 @@ impl TimeParser {
     }
 }
 
+/// Verification hook (cfg(kani) only): direct access to the integer-epoch unit heuristic.
+#[cfg(kani)]
+pub fn verif_normalize_integer_epoch(n: i128) -> Option<i64> {
+    TimeParser::normalize_integer_epoch(n)
+}
+
 fn num_digits_u128(mut x: u128) -> u32 {
     if x == 0 {
         return 1;
